@@ -95,9 +95,35 @@ pub uninterp spec fn has_type(v: PartialValue, t: SchemaType, exts: &Extensions<
 #[verifier::external_body] pub fn typecheck_value_against_schematype(value: &PartialValue, expected_ty: &SchemaType, extensions: &Extensions<'_>) -> (r: std::result::Result<(), TypecheckError>)
     ensures r is Ok <==> has_type(*value, *expected_ty, extensions) { unimplemented!() }
 /// every entity uid occurring inside the value is valid for the schema (assumed: applies validate_euid to every literal uid)
-pub uninterp spec fn euids_valid<S: Schema>(schema: &S, v: PartialValue) -> bool;
+/// an expression node as far as this file looks at it: an entity-uid literal or anything else (the other variants of ast::ExprKind / ast::Literal are collapsed)
+pub enum Literal { EntityUID(Arc<EntityUID>), Other }
+pub enum ExprKind { Lit(Literal), Other }
+#[verifier::external_body] pub struct Expr { _p: u8 }
+impl Expr {
+    pub uninterp spec fn spec_kind(&self) -> ExprKind;
+    #[verifier::external_body] pub fn expr_kind(&self) -> (r: &ExprKind) ensures *r == self.spec_kind() { unimplemented!() }
+}
+/// all sub-expressions of the value written as a restricted expression (RestrictedExpr::from(v).subexpressions() / residual.subexpressions(); trusted)
+pub uninterp spec fn sp_subexprs(v: PartialValue) -> Seq<Expr>;
+#[verifier::external_body] pub fn vx_subexpressions(v: &PartialValue) -> (r: VxIter<&Expr>)
+    ensures r.items().len() == sp_subexprs(*v).len(), forall|i: int| 0 <= i < r.items().len() ==> *(#[trigger] r.items()[i]) == sp_subexprs(*v)[i] { unimplemented!() }
+/// every entity uid literal anywhere in the value is valid for the schema
+pub open spec fn euids_valid<S: Schema>(schema: &S, v: PartialValue) -> bool {
+    forall|i: int| 0 <= i < sp_subexprs(v).len() ==> match (#[trigger] sp_subexprs(v)[i]).spec_kind() { ExprKind::Lit(Literal::EntityUID(u)) => euid_ok(schema, *u), _ => true }
+}
+/// validate_euids_in_partial_value: converts the value to a restricted expression (or takes the residual) and hands ALL its sub-expressions to
+/// validate_euids_in_subexpressions (proved below); the conversion / enumeration is trusted
 #[verifier::external_body] pub fn validate_euids_in_partial_value<S: Schema>(schema: &S, val: &PartialValue) -> (r: std::result::Result<(), ValidateEuidError>)
     ensures r is Ok <==> euids_valid(schema, *val) { unimplemented!() }
+impl<T> VxIter<T> {
+    /// `try_for_each`: Ok iff the closure accepts every item; otherwise the error of the first item it rejects
+    #[verifier::external_body]
+    pub fn try_for_each<E, F: Fn(T) -> std::result::Result<(), E>>(self, f: F) -> (r: std::result::Result<(), E>)
+        requires forall|i: int| 0 <= i < self.items().len() ==> f.requires((#[trigger] self.items()[i],))
+        ensures r is Ok ==> forall|i: int| 0 <= i < self.items().len() ==> f.ensures((#[trigger] self.items()[i],), Ok::<(), E>(())),
+            r is Err ==> exists|i: int| 0 <= i < self.items().len() && f.ensures((#[trigger] self.items()[i],), r)
+    { unimplemented!() }
+}
 pub enum ValidateEuidError { InvalidEnumEntity(InvalidEnumEntityError), UndeclaredAction(UndeclaredAction) }
 impl vstd::std_specs::convert::FromSpecImpl<ValidateEuidError> for EntitySchemaConformanceError {
     open spec fn obeys_from_spec() -> bool { false }
